@@ -1,0 +1,27 @@
+/*
+ * wverif.h - verification annotations (guard: WENCRY_VERIF).
+ *
+ * The WV_* macros mark loop contracts, cut points, ghost statements and
+ * assertions for the contract-based verification of this code (CBMC code
+ * contracts on a C text extracted mechanically from these sources).
+ * Without -DWENCRY_VERIF every macro expands to nothing, so the program
+ * that is built and tested is unchanged.  With the guard on they expand to
+ * inert marker tokens that only the extractor reads; the repository is
+ * never compiled in that configuration.
+ */
+#ifndef WVERIF_H
+#define WVERIF_H
+#ifdef WENCRY_VERIF
+#define WV_CONTRACT(...) __WV_CONTRACT__(__VA_ARGS__)
+#define WV_LOOP(...) __WV_LOOP__(__VA_ARGS__)
+#define WV_ASSERT(...) __WV_ASSERT__(__VA_ARGS__)
+#define WV_GHOST(...) __WV_GHOST__(__VA_ARGS__)
+#define WV_CUT(...) __WV_CUT__(__VA_ARGS__)
+#else
+#define WV_CONTRACT(...)
+#define WV_LOOP(...)
+#define WV_ASSERT(...)
+#define WV_GHOST(...)
+#define WV_CUT(...)
+#endif
+#endif
